@@ -219,6 +219,75 @@ func kmeansLeft(stored []byte, want []float32) string {
 	return "/" + c04lib.Hex(stored)
 }
 
+// storeTraceFails replays a store-level trace on a fresh store and tells whether some ForEach
+// still misses (or invents) an id; used to shrink a witness
+func storeTraceFails(trace []string) (fails bool) {
+	defer func() {
+		if r := recover(); r != nil {
+			fails = false
+		}
+	}()
+	stores := map[string]*storeH{}
+	live, disk := map[uint64]bool{}, map[uint64]bool{}
+	cp := func(m map[uint64]bool) map[uint64]bool {
+		c := map[uint64]bool{}
+		for k := range m {
+			c[k] = true
+		}
+		return c
+	}
+	for i, line := range trace {
+		f := strings.Fields(line)
+		if i == 0 {
+			execNew(stores, line)
+			continue
+		}
+		var id uint64
+		if len(f) > 2 {
+			fmt.Sscanf(f[2], "%x", &id)
+		}
+		out := execStore(stores, line)
+		switch f[0] {
+		case "set":
+			live[id] = true
+		case "del":
+			delete(live, id)
+		case "fit", "flush":
+			disk = cp(live)
+		case "open":
+			live = cp(disk)
+		case "foreach":
+			var want []string
+			for k := range live {
+				want = append(want, fmt.Sprintf("%016x", k))
+			}
+			sort.Strings(want)
+			w := strings.Join(want, ",")
+			if w == "" {
+				w = "-"
+			}
+			if out != w {
+				return true
+			}
+		}
+	}
+	return false
+}
+
+func shrinkStoreTrace(trace []string) []string {
+	cur := append([]string{}, trace...)
+	for changed := true; changed; {
+		changed = false
+		for i := len(cur) - 1; i >= 1; i-- {
+			cand := append(append([]string{}, cur[:i]...), cur[i+1:]...)
+			if storeTraceFails(cand) {
+				cur, changed = cand, true
+			}
+		}
+	}
+	return cur
+}
+
 func phaseStore(r *vh.Rng, o *vh.Out, nseq, nops int) {
 	for q := 0; q < nseq; q++ {
 		stores := map[string]*storeH{}
@@ -281,7 +350,13 @@ func phaseStore(r *vh.Rng, o *vh.Out, nseq, nops int) {
 					w = "-"
 				}
 				if impl != w {
-					o.Fail(fmt.Sprintf("store-enum:%s", c.Eff().Quant), fmt.Sprintf("ForEach of a %s store visits %s, the store holds %s", c, impl, w), strings.Join(trace, "\n"))
+					rep := trace
+					if o.Stats["oracle-failure"] < 3 {
+						if sh := shrinkStoreTrace(trace); storeTraceFails(sh) {
+							rep = sh
+						}
+					}
+					o.Fail(fmt.Sprintf("store-enum:%s", c.Eff().Quant), fmt.Sprintf("ForEach of a %s store does not visit exactly the ids the store holds (full run: visits %s, holds %s); replay: the last foreach line", c, impl, w), strings.Join(rep, "\n"))
 				}
 			case x < 94:
 				line := fmt.Sprintf("exists s %016x", id)
@@ -408,10 +483,11 @@ func candidates(sim *c04lib.Sim, cfg c04lib.FlatCfg, d c04lib.Dump, ownNodes, li
 }
 
 type runner struct {
-	r   *vh.Rng
-	o   *vh.Out
-	hc  histCase
-	tag string
+	r       *vh.Rng
+	o       *vh.Out
+	hc      histCase
+	tag     string
+	shrinks int
 }
 
 func (rn *runner) replayOf(q *flatQuery, what string) string {
@@ -644,6 +720,9 @@ func (rn *runner) history(dir string, cfgs []c04lib.FlatCfg, nb, maxIns, nq int,
 			name := fmt.Sprintf("%s%d", rn.tag, ci)
 			d := c04lib.DumpBucket(sim.Live(), c.Bucket())
 			lines, fit := modelLines(name, c, states[ci], d, b, pre, post, nodes, newNodes, sim)
+			if len(lines) == 0 {
+				continue // no change reached this index: the dispatcher never opened it in this batch
+			}
 			for _, l := range lines {
 				o.Emit("set/del", l, "ok", false)
 			}
@@ -657,57 +736,136 @@ func (rn *runner) history(dir string, cfgs []c04lib.FlatCfg, nb, maxIns, nq int,
 		}
 		nodes = newNodes
 		// ---- queries
-		type coldShard struct {
-			name string
-			size int64
-		}
 		for qi := 0; qi < nq; qi++ {
 			ci := rn.r.Intn(len(cfgs))
-			c := cfgs[ci]
-			q := rn.genQuery(sim, c)
-			d := c04lib.DumpBucket(sim.Live(), c.Bucket())
-			cands, st, nan := candidates(sim, c, d, nodes, nodes, q)
-			if nan > 0 {
-				o.Stats["query-with-NaN-distance-skipped"]++
-				continue
-			}
-			hits, err := c04lib.Search(sim.Live(), q.toQuery())
-			canon := ""
-			if err == nil {
-				canon = c04lib.FlatCanon(cands, hits)
-			}
-			o.Emit("search", c04lib.SearchLine(q.Limit, cands), canon, true)
-			o.Stats[fmt.Sprintf("search:%s/%s", c.Eff().Metric, c.Eff().Quant)]++
-			if st.Trained {
-				o.Stats["search-trained"]++
-			}
-			if len(hits) > 1 && *hits[0].Dist == *hits[len(hits)-1].Dist {
-				o.Stats["search-all-tied"]++
-			}
-			rn.judge("warm", c, q, cands, hits, err, canon, false)
-			// fresh shards on a copy of the file: cold, cache disabled, tiny cache (asked twice)
-			for _, cs := range []coldShard{{"cold", -1}, {"cold-disabled", 0}, {"cold-tiny", 64}} {
-				sh, done := sim.OpenCopy(cs.size)
-				h2, e2 := c04lib.Search(sh, q.toQuery())
-				rn.judge(cs.name, c, q, cands, h2, e2, canon, true)
-				if cs.size > 0 {
-					h3, e3 := c04lib.Search(sh, q.toQuery())
-					rn.judge(cs.name+"-again", c, q, cands, h3, e3, canon, true)
-				}
-				done()
-			}
-			// shards that ran the whole history with another cache configuration
-			for _, v := range sim.Variants[1:] {
-				vd := c04lib.DumpBucket(v.Shard, c.Bucket())
-				vn := c04lib.NodeIds(c04lib.DumpBucket(v.Shard, c04lib.PointsBucket))
-				vc, vst, _ := candidates(sim, c, vd, vn, nodes, q)
-				h2, e2 := c04lib.Search(v.Shard, q.toQuery())
-				// k-means is randomised: separately trained product quantisers are judged on their own
-				det := !(vst.Cfg.Quant == c04lib.QProduct && (vst.Trained || st.Trained))
-				rn.judge(v.Name, c, q, vc, h2, e2, canon, det)
+			q := rn.genQuery(sim, cfgs[ci])
+			before := len(o.Oracle)
+			rn.evalQuery(sim, nodes, cfgs[ci], q, true)
+			if len(o.Oracle) > before && rn.shrinks < 2 {
+				rn.shrinks++
+				rn.shrink(o.Oracle[before].Signature, q, &o.Oracle[before])
 			}
 		}
 	}
+}
+
+type coldShard struct {
+	name string
+	size int64
+}
+
+// evalQuery: one flat query answered by every shard and judged
+func (rn *runner) evalQuery(sim *c04lib.Sim, nodes map[uuid.UUID]uint64, c c04lib.FlatCfg, q flatQuery, emit bool) {
+	o := rn.o
+	d := c04lib.DumpBucket(sim.Live(), c.Bucket())
+	cands, st, nan := candidates(sim, c, d, nodes, nodes, q)
+	if nan > 0 {
+		o.Stats["query-with-NaN-distance-skipped"]++
+		return
+	}
+	hits, err := c04lib.Search(sim.Live(), q.toQuery())
+	canon := ""
+	if err == nil {
+		canon = c04lib.FlatCanon(cands, hits)
+	}
+	if emit {
+		o.Emit("search", c04lib.SearchLine(q.Limit, cands), canon, true)
+		o.Stats[fmt.Sprintf("search:%s/%s", c.Eff().Metric, c.Eff().Quant)]++
+		if st.Trained {
+			o.Stats["search-trained"]++
+		}
+		if len(hits) > 1 && *hits[0].Dist == *hits[len(hits)-1].Dist {
+			o.Stats["search-all-tied"]++
+		}
+	}
+	rn.judge("warm", c, q, cands, hits, err, canon, false)
+	// fresh shards on a copy of the file: cold, cache disabled, tiny cache (asked twice)
+	for _, cs := range []coldShard{{"cold", -1}, {"cold-disabled", 0}, {"cold-tiny", 64}} {
+		sh, done := sim.OpenCopy(cs.size)
+		h2, e2 := c04lib.Search(sh, q.toQuery())
+		rn.judge(cs.name, c, q, cands, h2, e2, canon, true)
+		if cs.size > 0 {
+			h3, e3 := c04lib.Search(sh, q.toQuery())
+			rn.judge(cs.name+"-again", c, q, cands, h3, e3, canon, true)
+		}
+		done()
+	}
+	// shards that ran the whole history with another cache configuration
+	for _, v := range sim.Variants[1:] {
+		vd := c04lib.DumpBucket(v.Shard, c.Bucket())
+		vn := c04lib.NodeIds(c04lib.DumpBucket(v.Shard, c04lib.PointsBucket))
+		vc, vst, _ := candidates(sim, c, vd, vn, nodes, q)
+		h2, e2 := c04lib.Search(v.Shard, q.toQuery())
+		// k-means is randomised: separately trained product quantisers are judged on their own
+		det := !(vst.Cfg.Quant == c04lib.QProduct && (vst.Trained || st.Trained))
+		rn.judge(v.Name, c, q, vc, h2, e2, canon, det)
+	}
+}
+
+// stillFails: does the history `hc` followed by query `q` still produce an oracle failure with
+// this signature? (fresh shards, scratch output)
+func (rn *runner) stillFails(hc histCase, q flatQuery, sig string) (bad bool) {
+	defer func() {
+		if r := recover(); r != nil {
+			bad = false
+		}
+	}()
+	tmp, err := os.MkdirTemp("", "c04s-")
+	if err != nil {
+		return false
+	}
+	defer os.RemoveAll(tmp)
+	sb := &runner{r: vh.NewRng(1), o: vh.NewOut(tmp + "/out"), hc: hc, tag: "x", shrinks: 99}
+	sim := c04lib.NewSim(tmp, schemaOf(hc.Cfgs), []string{"live", "disabled", "evicting"})
+	defer sim.Close()
+	for _, jb := range hc.Batches {
+		if _, _, err := sim.Apply(jb.toBatch()); err != nil {
+			return false
+		}
+	}
+	var cfg c04lib.FlatCfg
+	for _, c := range hc.Cfgs {
+		if c.Prop == q.Prop {
+			cfg = c
+		}
+	}
+	nodes := c04lib.NodeIds(c04lib.DumpBucket(sim.Live(), c04lib.PointsBucket))
+	sb.evalQuery(sim, nodes, cfg, q, false)
+	for _, f := range sb.o.Oracle {
+		if f.Signature == sig {
+			return true
+		}
+	}
+	return false
+}
+
+// shrink the history of a failing query: drop whole batches, then single changes
+func (rn *runner) shrink(sig string, q flatQuery, f *vh.OracleFailure) {
+	cur := histCase{Cfgs: rn.hc.Cfgs, Batches: append([]jsonBatch{}, rn.hc.Batches...)}
+	if !rn.stillFails(cur, q, sig) {
+		return // not reproducible on fresh shards (keep the full history as the replay)
+	}
+	for i := len(cur.Batches) - 1; i >= 0; i-- {
+		cand := histCase{Cfgs: cur.Cfgs, Batches: append(append([]jsonBatch{}, cur.Batches[:i]...), cur.Batches[i+1:]...)}
+		if rn.stillFails(cand, q, sig) {
+			cur = cand
+		}
+	}
+	for bi := len(cur.Batches) - 1; bi >= 0; bi-- {
+		for ci := len(cur.Batches[bi].Changes) - 1; ci >= 0 && len(cur.Batches[bi].Changes) > 1; ci-- {
+			cand := histCase{Cfgs: cur.Cfgs, Batches: append([]jsonBatch{}, cur.Batches...)}
+			nb := cand.Batches[bi]
+			nb.Changes = append(append([]jsonChange{}, nb.Changes[:ci]...), nb.Changes[ci+1:]...)
+			cand.Batches[bi] = nb
+			if rn.stillFails(cand, q, sig) {
+				cur = cand
+			}
+		}
+	}
+	save := rn.hc
+	rn.hc = cur
+	f.Replay = rn.replayOf(&q, "shrunk from "+fmt.Sprint(len(save.Batches))+" batches")
+	rn.hc = save
 }
 
 func main() {
